@@ -176,6 +176,36 @@ def range(n):
   return _b.range(n + 1)
 '''
 
+FUT_SRC = '''\
+from __future__ import annotations
+
+import functools
+import typing
+
+if typing.TYPE_CHECKING:
+  from nowhere import Missing      # only for type checkers: not importable at run time
+
+K = 2
+OUT = None
+
+
+def fut(x: Missing, l: Missing) -> Missing:
+  if x == 2:
+    l.append('two')
+  return ('fut', x + K)
+
+
+def wrap_foreign(f):
+  # a wrapper living here (annotations are lazy in this module) that reports
+  # the wrapped function's __module__ / __qualname__
+  @functools.wraps(f)
+  def wrapper(x: Missing, l: Missing) -> Missing:
+    if x == 1:
+      l.append('one')
+    return ('fwrap', f(x, l), K)
+  return wrapper
+'''
+
 VER_SRC = '''\
 K = 5
 OUT = None
@@ -256,6 +286,10 @@ def build_universe(lane, u):
   a = common.load_module('simpool_a', pa)
   b = common.load_module('simpool_b', pb)
   g = common.load_module('simpool_g', pg)
+  pf = os.path.join(base, 'f', 'simpool_f.py')
+  common.write_module(pf, FUT_SRC)
+  fmod = common.load_module('simpool_f', pf)
+  fmod.OUT = sink
   v1 = common.load_module('simpool_m', pv1)
   v2 = common.load_module('simpool_m', pv2)     # "redefinition": same module name, newer file
   a.K, b.K = rng.randrange(2, 6), rng.randrange(6, 10)
@@ -312,6 +346,10 @@ def build_universe(lane, u):
   lists['duals'] = duals
   add('a.dual@if', duals[0], group='dual')
   add('a.dual@else', duals[1], droppable=True, dropper=del_item(duals, 1), group='dual')
+  # functions compiled under `from __future__ import annotations` (their annotations name things that
+  # do not exist at run time); one of them reports another module's __module__
+  add('f.fut', fmod.fut, group='future')
+  add('f.fwrap(a.inner_target)', fmod.wrap_foreign(a.inner_target), group='future')
   # a functools.wraps wrapper and the function it wraps: distinct code objects linked by __wrapped__
   add('a.decorated', a.decorated, group='deco')
   add('a.inner_target', a.inner_target, group='deco')
@@ -735,7 +773,7 @@ def make_plan(seed, index, tier, sub):
   u = seed % 4 if tier == 'quick' else (seed * 7 + index % 4) % 64
   nfn = 18
   # focus: a few groups per run so that requests collide on cache entries
-  groups = [[0, 1, 8], [2, 3, 4, 9], [5, 6, 7], [10, 11], [12, 13], [14, 15], [16, 18, 19], [17], [22, 23], [20, 21]]
+  groups = [[0, 1, 8], [2, 3, 4, 9], [5, 6, 7], [10, 11], [12, 13], [14, 15], [16, 18, 19], [17], [24, 25], [20, 21], [22, 23, 24, 25]]
   k = rng.choice([1, 1, 2, 2, 3])
   chosen = rng.sample(groups, k)
   fids = sorted(set(f for g in chosen for f in g))
